@@ -247,8 +247,16 @@ pub fn run(rep: &mut Report, thorough: bool, replay: Option<Value>) {
     rep.explanation = "every execution's per-slice records (batch contents, snapshot, state read/written) are checked: batches concatenate to the input (multiset for NoOrder), snapshots never decrease and never exceed what was sent, atomic-style snapshots equal exactly the number of elements released up to and including the slice's batch, state read in slice j+1 equals the value written in slice j".into();
     rep.assume("the simulator's exhaustive search itself is complete (that is C37's subject)");
     rep.assume("corpus of 7 hand-written sliced! programs (bounded program family, not all programs)");
-    let max_n = if thorough { 4 } else { 3 };
-    rep.bound("max_inputs", max_n);
+    // The state space of the programs that snapshot a top-level fold (its hook enumerates every
+    // subset and order of fold inputs) grows ~15x per input, so the bound is per program.
+    let max_n = if thorough { 5 } else { 3 };
+    let max_n_p1 = if thorough { 4 } else { 3 };
+    let max_n_p4 = if thorough { 3 } else { 2 };
+    let p5_sizes: &[(usize, usize)] = if thorough { &[(1, 1), (1, 2), (2, 1), (2, 2)] } else { &[(1, 1), (1, 2), (2, 1)] };
+    rep.bound("max_inputs_P2_P3_P6_P7", max_n);
+    rep.bound("max_inputs_P1", max_n_p1);
+    rep.bound("max_inputs_P4_unordered", max_n_p4);
+    rep.bound("sizes_P5", json!(p5_sizes));
     rep.bound("programs", 7);
 
     let mut flow = FlowBuilder::new();
@@ -300,10 +308,10 @@ pub fn run(rep: &mut Report, thorough: bool, replay: Option<Value>) {
 
     // Two send patterns: everything up front, or a first half, one awaited record, then the rest.
     section!("P1_batch_snapshot_state", st, {
-        for n in 1..=max_n {
+        for n in 1..=max_n_p1 {
             for pattern in ["upfront", "split"] {
                 let case = Case { prog: "P1", n, nb: 0, pattern };
-                if !wanted(&case) {
+                if !wanted(&case) || (n > 3 && pattern == "split") {
                     continue;
                 }
                 judge(&mut st, &case, &mut || {
@@ -379,7 +387,7 @@ pub fn run(rep: &mut Report, thorough: bool, replay: Option<Value>) {
         }
     });
     section!("P4_unordered", st, {
-        for n in 1..=max_n {
+        for n in 1..=max_n_p4 {
             let case = Case { prog: "P4", n, nb: 0, pattern: "upfront" };
             if !wanted(&case) {
                 continue;
@@ -395,8 +403,8 @@ pub fn run(rep: &mut Report, thorough: bool, replay: Option<Value>) {
         }
     });
     section!("P5_two_batches_snapshot", st, {
-        for n in 1..=max_n.min(3) {
-            for nb in 1..=(max_n - 1).min(2) {
+        for &(n, nb) in p5_sizes {
+            {
                 let case = Case { prog: "P5", n, nb, pattern: "upfront" };
                 if !wanted(&case) {
                     continue;
